@@ -455,12 +455,17 @@ def canon_c20(e, family):
     j = e.get('json')
     got = canon_promise(None)
     if e['do'] in ('http', 'grpc') and isinstance(j, dict):
-        if name == 'list':
+        if name == 'read-schedule':
+            pp = j.get('promiseParam') if isinstance(j.get('promiseParam'), dict) else {}
+            got = dict(stags=_pairs(j.get('tags')), sptags=_pairs(j.get('promiseTags')), spheaders=_pairs(pp.get('headers')), present='id' in j)
+        elif name == 'list':
             lst = []
             for p in j.get('promises', []) if isinstance(j.get('promises'), list) else []:
                 pid = str(p.get('id', ''))
                 tags = p.get('tags') if isinstance(p.get('tags'), dict) else {}
-                lst.append(dict(prefix=_hex(pid[:pid.rfind('.')] if '.' in pid else pid), sched=_hex(tags.get('resonate:schedule', ''))))
+                par = p.get('param') if isinstance(p.get('param'), dict) else {}
+                lst.append(dict(prefix=_hex(pid[:pid.rfind('.')] if '.' in pid else pid), sched=_hex(tags.get('resonate:schedule', '')),
+                                headers=_pairs(par.get('headers')), ntags=len(tags)))
             got = dict(list=lst)
         else:
             got = canon_promise(j.get('promise') if e['do'] == 'grpc' else j)
